@@ -103,7 +103,7 @@ class Check:
     def finish(self):
         # vacuity: a rule that matched fewer instances than confirmed by hand is an analysis failure
         for r, d in self.rules.items():
-            if d["instances"] < d["min"]:
+            if d["instances"] < d["min"] and not self.violations:
                 raise AnalysisIncomplete("rule %s matched %d instance(s), frozen minimum is %d (%s)" % (
                     r, d["instances"], d["min"], d["what"]))
         wall = time.time() - self.t0
